@@ -271,8 +271,8 @@ def run_harness(sub, seed, n, tier, extra=None, only=None, timeout=3000):
     os.makedirs(casedir, exist_ok=True)
     prefix = os.path.join(casedir, sub.upper())
     for f in os.listdir(casedir):
-        if re.match(r"^%s(_\d+\.(v|vo|vos|vok|glob)|\.jsonl|\.stats\.json)$" % re.escape(sub.upper()), f) or \
-           re.match(r"^\.%s_\d+\.aux$" % re.escape(sub.upper()), f):
+        if re.match(r"^%s(_(cert_)?\d+\.(v|vo|vos|vok|glob)|\.jsonl|_certs\.jsonl|\.stats\.json)$" % re.escape(sub.upper()), f) or \
+           re.match(r"^\.%s_(cert_)?\d+\.aux$" % re.escape(sub.upper()), f):
             os.remove(os.path.join(casedir, f))
     cmd = [HARNESS_BIN, sub, "-seed", str(seed), "-n", str(n), "-tier", tier, "-out", prefix]
     if only is not None:
@@ -395,6 +395,8 @@ def check(prop, tier, seed, replay=None):
     nontrivial_keys = set()
     samples = []
     judged_total = 0
+    certs_total = 0
+    certs_ok = 0
     if corr_built:
         for sub in cfg["harness"]:
             n = sub["n"][tier]
@@ -447,6 +449,37 @@ def check(prop, tier, seed, replay=None):
                         fails_spec.append(c)
                     elif not m_ok:
                         fails_model.append(c)
+            # kernel-checked numeric certificates emitted by the harness (interval tactic)
+            casedir = os.path.join(COQ, "Cases")
+            certfiles = sorted(f for f in os.listdir(casedir) if re.match(r"^%s_cert_\d+\.v$" % re.escape(sub["cmd"].upper()), f))
+            if certfiles:
+                cmetas = load_jsonl(prefix + "_certs.jsonl")
+                with ThreadPoolExecutor(max_workers=8) as ex:
+                    cres = list(ex.map(lambda f: (f,) + run(["coqc", "-Q", ".", "GA", "-w", "-notation-overridden", "Cases/" + f], cwd=COQ, timeout=3000), certfiles))
+                for f, rc, out in cres:
+                    ids = [int(x) for x in re.findall(r"\(\* CERT (\d+) \*\)", open(os.path.join(casedir, f)).read())]
+                    certs_total += len(ids)
+                    if rc == 0:
+                        certs_ok += len(ids)
+                        continue
+                    mline = re.search(r'line (\d+), characters', out)
+                    bad = None
+                    if mline:
+                        ln = int(mline.group(1))
+                        txt = open(os.path.join(casedir, f)).read().splitlines()
+                        for k in range(min(ln, len(txt)) - 1, -1, -1):
+                            mm = re.match(r"\(\* CERT (\d+) \*\)", txt[k])
+                            if mm:
+                                bad = int(mm.group(1))
+                                break
+                    certs_ok += len([i for i in ids if bad is not None and i < bad])
+                    cm = next((m for m in cmetas if m.get("cert") == bad), {"cert": bad})
+                    cm = dict(cm)
+                    cm.update({"op": "certificate", "harness": sub["cmd"], "seed": sd, "n": n, "tier": tier_h,
+                               "idx": cm.get("case_idx"), "coq_error": out[-600:],
+                               "what": "the interval tactic cannot prove that the value returned by the implementation is within "
+                                       "tolerance of the modelled closed form evaluated on this pair"})
+                    fails_spec.append(cm)
             cases_total += len(metas)
             nt = cfg.get("nontrivial")
             for m in metas:
@@ -533,8 +566,9 @@ def check(prop, tier, seed, replay=None):
     tb.append("axioms reported by Print Assumptions for Props/%s.v: %s" %
               (prop, ", ".join(pinfo.get("axioms_used", [])) or "none (closed under the global context)"))
     coverage = {
-        "obligations": max(nthm, 1),
-        "discharged": discharged,
+        "obligations": max(nthm, 1) + certs_total,
+        "discharged": discharged + certs_ok,
+        "numeric_certificates": {"emitted": certs_total, "proved_by_interval": certs_ok},
         "checker_cmd": "make -C coq -j16 %s && coqc -Q . GA Props/%s.v  (Coq 8.16.1, full .vo build)"
                        % (" ".join(targets), prop),
         "trusted_base": tb,
